@@ -5,7 +5,7 @@
 //@ stubs: <ExecutedState as Clone>::clone -> Par(0,0) (only reached when building the NoStreamState error payload, which is not inspected); alloc::fmt::format -> empty String
 //@ assumes: trace of 5 concrete entries: Ap with 0, 1 and 2 generations, a stream call result, a par; the looked-up position is any u32
 //@ decides: C01: looking up the generation a fold lore points to never panics for any position and any Ap shape (in particular an Ap without generations); it returns the first generation of an Ap / the generation of a stream call result and an error for everything else
-//@ harness: name=c01_try_get_generation_total props=C01 panicfree=1 cap=900 cost=60 sym="position: any u32; generations stored in the states: any u32" bound="5-entry trace of fixed shapes"
+//@ harness: name=c01_try_get_generation_total playback=1 props=C01 panicfree=1 cap=900 cost=60 sym="position: any u32; generations stored in the states: any u32" bound="5-entry trace of fixed shapes"
 
 use super::*;
 use air_interpreter_data::*;
